@@ -5,6 +5,7 @@ import (
 	"fmt"
 	"io"
 	"log/slog"
+	"math"
 
 	"github.com/berquerant/crd/chord"
 	"github.com/berquerant/crd/errorx"
@@ -258,6 +259,18 @@ func (w writeCmdArgs) writeToPlay() (midix.Writer, error) {
 	writer := play.NewWriter(w.cmap, func(k op.Key) play.Key {
 		return play.NewKey(k, w.cmap)
 	})
+	// every time in a MIDI file is a 28-bit quantity
+	var ticks float64
+	for i, x := range w.instances {
+		var value float64
+		for _, v := range x.Values {
+			value += v.Float()
+		}
+		ticks += math.Round(value * midix.DefaultTicksPerQuoaterNote)
+		if !(ticks <= midix.MaxTicks) {
+			return nil, errorx.Invalid("instance[%d]: the piece is longer than a MIDI file can state", i)
+		}
+	}
 	if err := writer.Write(mWriter, w.instances); err != nil {
 		return nil, err
 	}
